@@ -371,6 +371,42 @@ fn body_worlds(space: Space) -> impl Fn(&Ch) -> Run + Sync + Send {
   }
 }
 
+/// Graphs that carry fast-check modules (see C15's part of the same name):
+/// validation under every option set incl. prefer_fast_check_graph.
+fn body_fast_check(slots: usize) -> impl Fn(&Ch) -> Run + Sync + Send {
+  move |ch: &Ch| {
+    let mut run = Run::default();
+    let Some((r, g, root_sets)) = crate::props::c15::fast_check_graph(ch, slots) else {
+      run.violate("build-did-not-finish", "deadlock", json!({}));
+      return run;
+    };
+    let graph = &r.graph;
+    let view = SlotView::new(graph);
+    let with_fc = r.modules.values().filter(|(_, s)| matches!(s, crate::fc::FcSlot::Module { .. })).count();
+    let mut verdicts = vec![];
+    for roots in &root_sets {
+      for o in crate::props::c15::all_opts() {
+        let case = || {
+          json!({"package": g.pkg.files.iter().map(|(p, s)| json!([p, s])).collect::<Vec<_>>(), "exports": g.pkg.exports, "workspace_member": g.pkg.workspace,
+            "modules_with_fast_check_output": with_fc,
+            "walk_roots": roots.iter().map(|r| r.as_str()).collect::<Vec<_>>(), "options": format!("{o:?}")})
+        };
+        let (ok, _) = check_validation(graph, &view, roots, &o, &mut run, &case);
+        verdicts.push(ok);
+        run.evals += 1;
+      }
+    }
+    run.count("graphs_with_fast_check_modules", (with_fc > 0) as u64);
+    run.state_key = hash_of(&format!("{:?}{:?}{}{}", g.pkg.files, g.pkg.exports, g.pkg.workspace, root_sets[0].len()));
+    run.nontrivial = with_fc > 0;
+    run.outcome_key = hash_of(&verdicts);
+    if ch.describe() {
+      run.sample = Some(json!({"package": g.pkg.files.iter().map(|(p, s)| json!([p, s])).collect::<Vec<_>>(), "modules_with_fast_check_output": with_fc}));
+    }
+    run
+  }
+}
+
 pub fn prop(tier: Tier) -> Prop {
   let mut parts = vec![Part {
     name: "placements",
@@ -414,6 +450,15 @@ pub fn prop(tier: Tier) -> Prop {
       what: "every world over the core alphabet, enumerated completely: 3 specifiers (kinds TypeScript / missing / JavaScript / JSON / redirect), <= 3 edges from {import, dynamic import, import type}",
     }),
   }
+  parts.push(Part {
+    name: "fast-check",
+    body: Box::new(body_fast_check(2)),
+    modes: match tier {
+      Tier::Quick => vec![Mode::Deviations(1), Mode::Deviations(2)],
+      Tier::Thorough => vec![Mode::Deviations(2), Mode::Deviations(3)],
+    },
+    what: "graphs with fast-check modules (generated package + dependency package after build_fast_check_type_graph, with failing imports that only function bodies use): validate() under all 36 option sets incl. prefer_fast_check_graph vs the reachability reference",
+  });
   Prop {
     id: "C02",
     rule: "placements: state = (failure kind, edge kind, redirect hops 0..3, healthy sibling, local/remote); the verdict of validate() under each of the 36 walk option sets and of valid() is compared with the verdict known by construction AND with an independent reachability computation over the graph's recorded dependencies; worlds: deviation-bounded generic worlds compared with the reachability reference only. Non-trivial = scenario/world that contains a failure.".into(),
